@@ -87,6 +87,7 @@ static volatile int parked_word;       /* futex word the waiter (main) sleeps on
 static volatile pthread_t park_thread;
 static volatile int park_thread_set;
 static volatile int deadlock_flag;
+static volatile int generic_park = 1;     /* libc calls count as park events too */
 static void (*deadlock_cb)(const char *);
 
 /* selecting a mode (re)starts supervision in THIS process: it is the root, its fork()ed children are "children" */
@@ -108,6 +109,8 @@ VIS int sched_wait_parked(volatile int *done, int timeout_ms)
     }
     return park_state == 1;
 }
+
+VIS void sched_generic_events(int on) { generic_park = on; }
 
 static void park_event(void)
 {
@@ -249,6 +252,28 @@ static int coop_unlock(pthread_mutex_t *m)
     int r = real_unlock(m);
     for (int i = 0; i < cnthreads; i++) if (cth[i].state == 2 && cth[i].waits == m) cth[i].state = 1;
     coop_point('u');
+    return r;
+}
+
+/* ------------------------------------------------------------------ generic call points (tramp.S)
+ * Every call libsnoopy.so makes to one of the trampolined libc functions lands here first (return address + index);
+ * the function returns the address of the real implementation, to which the trampoline jumps with all argument
+ * registers intact.  In COOP mode such a call is a scheduling point, in PARK mode an event the thread can be parked at. */
+#include "tramp_names.h"
+static void *tramp_real_tab[NTRAMP];
+static __thread int in_point;
+static void park_event(void);
+
+VIS void *sched_generic_point(void *ra, int idx)
+{
+    void *r = tramp_real_tab[idx];
+    if (!r) { r = dlsym(RTLD_NEXT, tramp_names[idx]); tramp_real_tab[idx] = r; }
+    if (mode == MODE_OFF || in_point || in_child) return r;
+    if (!(lib_lo && (uintptr_t) ra >= lib_lo && (uintptr_t) ra < lib_hi)) return r;
+    in_point = 1;
+    if (mode == MODE_COOP) { if (my_index >= 0) coop_point('c'); }
+    else if (mode == MODE_PARK && generic_park) park_event();
+    in_point = 0;
     return r;
 }
 
